@@ -39,7 +39,8 @@ CFG = {
                   "all oracle hypotheses are theorems of the transcribed firstLineSegment. DRAW: rich_draw_rows / text_draw_rows - the surface "
                   "returned by Draw (model = scanner model composed with C14's NewSurface/Fill/WriteCell/row-loop model) has min(#lines, Max.Height) "
                   "rows, the width findContainerSize computes, and row y shows line y cell by cell (grapheme j at column = width before it, wide "
-                  "graphemes occupy width columns, every other column blank, lines beyond Max.Height dropped); hardwrap_is_split_at_newline "
+                  "graphemes occupy width columns, every other column blank, lines beyond Max.Height dropped); rich_draw_nothing_clipped (every positive-width "
+                  "grapheme of every emitted line, trailing whitespace aside, is on the surface); hardwrap_is_split_at_newline "
                   "(HardwrapScanner = split at \\n exactly); hard_draw_rows (hard-wrap Draw with its ellipsis). GEN: 19 facts_* theorems over the "
                   "extracted guards of both Scan functions, firstLineSegment, HardwrapScanner and the Draw loops - scanners_agree (text = rich), "
                   "operators proved to be the model's tests for all inputs, int sums (F45), state reset (F116). Real violations found and fixed "
